@@ -581,7 +581,7 @@ class MatchControlConstructionToken(CompositeBaseToken):
 
     @property
     def match_type(self) -> ExpressionToken:
-        return self.value[6]
+        return self.value[6] if len(self.value) == 8 else None
 
 
 class XMatchControlConstructionToken(CompositeBaseToken):
